@@ -23,21 +23,34 @@ struct Ctx<'a> {
     full: bool,
 }
 
+// The item under test occupies b[START..END] of the buffer handed to the decoder (START = 0 and
+// END = len for the plain case; the offset variant puts filler bytes before and after the item).
+thread_local! {
+    static WINDOW: std::cell::Cell<(usize, usize)> = std::cell::Cell::new((0, usize::MAX));
+}
+fn st_of(_b: &[u8]) -> usize {
+    WINDOW.with(|w| w.get().0)
+}
+fn en_of(b: &[u8]) -> usize {
+    WINDOW.with(|w| w.get().1.min(b.len()))
+}
+
 fn fail(rep: &mut Report, op: &str, b: &[u8], what: String) {
     rep.violation(
         &format!("{}|{}", ID, op),
         J::obj().with("op", J::s(op)).with("input", J::s(hex(b))).with("what", J::s(what)),
-        vec!["c05".into(), "--replay".into(), hex(b)],
+        vec!["c05".into(), "--replay".into(), hex(b), st_of(b).to_string(), en_of(b).to_string()],
     );
 }
 
 macro_rules! acc {
     ($rep:expr, $b:expr, $v:expr, $m:ident, $t:ty) => {{
         let mut d = Decoder::new($b);
+        d.set_position(st_of($b));
         let r = d.$m();
         let exp = <$t>::try_from($v).ok();
         match (&r, exp) {
-            (Ok(x), Some(y)) if *x == y && d.position() == $b.len() => {}
+            (Ok(x), Some(y)) if *x == y && d.position() == en_of($b) => {}
             (Err(_), None) => {}
             _ => fail($rep, stringify!($m), $b, format!("value {} -> {:?} at position {}, expected {:?} at {}", $v, r.as_ref().map_err(|e| e.to_string()), d.position(), exp, $b.len())),
         }
@@ -47,10 +60,11 @@ macro_rules! acc {
 macro_rules! dec {
     ($rep:expr, $b:expr, $v:expr, $t:ty, $exp:expr) => {{
         let mut d = Decoder::new($b);
+        d.set_position(st_of($b));
         let r: Result<$t, _> = d.decode();
         let exp: Option<$t> = $exp;
         match (&r, exp) {
-            (Ok(x), Some(y)) if *x == y && d.position() == $b.len() => {}
+            (Ok(x), Some(y)) if *x == y && d.position() == en_of($b) => {}
             (Err(_), None) => {}
             _ => fail($rep, concat!("decode::<", stringify!($t), ">"), $b, format!("value {} -> {:?} at position {}, expected {:?}", $v, r.as_ref().map_err(|e| e.to_string()), d.position(), exp)),
         }
@@ -71,17 +85,20 @@ fn check_head(c: &mut Ctx, b: &[u8], v: i128) {
     // int(): always Ok and exact
     {
         let mut d = Decoder::new(b);
+        d.set_position(st_of(b));
         match d.int() {
-            Ok(i) if i128::from(i) == v && d.position() == b.len() => {}
+            Ok(i) if i128::from(i) == v && d.position() == en_of(b) => {}
             r => fail(rep, "int", b, format!("value {} -> {:?} at {}", v, r.map(i128::from).map_err(|e| e.to_string()), d.position())),
         }
     }
     // datatype() names a type whose accessor accepts the item
     {
-        let d = Decoder::new(b);
+        let mut d = Decoder::new(b);
+        d.set_position(st_of(b));
         match d.datatype() {
             Ok(t) => {
                 let mut d2 = Decoder::new(b);
+                d2.set_position(st_of(b));
                 let got: Option<i128> = match t {
                     Type::U8 => d2.u8().ok().map(i128::from),
                     Type::U16 => d2.u16().ok().map(i128::from),
@@ -107,10 +124,11 @@ fn check_head(c: &mut Ctx, b: &[u8], v: i128) {
     // char
     {
         let mut d = Decoder::new(b);
+        d.set_position(st_of(b));
         let r = d.char();
         let exp = u32::try_from(v).ok().and_then(char::from_u32);
         match (&r, exp) {
-            (Ok(x), Some(y)) if *x == y && d.position() == b.len() => {}
+            (Ok(x), Some(y)) if *x == y && d.position() == en_of(b) => {}
             (Err(_), None) => {}
             _ => fail(rep, "char", b, format!("value {} -> {:?}, expected {:?}", v, r.as_ref().map_err(|e| e.to_string()), exp)),
         }
@@ -216,9 +234,29 @@ fn one(c: &mut Ctx, neg: bool, w: u8, arg: u64) {
     head(if neg { 1 } else { 0 }, w, arg, &mut buf);
     let v: i128 = if neg { -1 - arg as i128 } else { arg as i128 };
     c.rep.eval();
+    WINDOW.with(|w| w.set((0, usize::MAX)));
     let r = mon::guarded(|| check_head(c, &buf, v));
     if let Err(p) = r {
         fail(c.rep, "panic", &buf, format!("{} at {}", p.message, p.location));
+    }
+    // the same item in the middle of a buffer (the decoder starts at its first byte): the value
+    // and the number of bytes consumed must not depend on where the item sits
+    if c.full || arg % 16 == 5 {
+        let k = 1 + (arg % 7) as usize;
+        let mut wide = Vec::with_capacity(buf.len() + k + 2);
+        for j in 0..k {
+            wide.push([0x18u8, 0x39, 0x1b, 0xff, 0x00, 0x3a, 0x19][(j + (arg % 7) as usize) % 7]);
+        }
+        wide.extend_from_slice(&buf);
+        wide.extend_from_slice(&[0x1b, 0xff][..1 + (arg % 2) as usize]);
+        c.rep.eval();
+        WINDOW.with(|w| w.set((k, k + buf.len())));
+        let r = mon::guarded(|| check_head(c, &wide, v));
+        WINDOW.with(|w| w.set((0, usize::MAX)));
+        if let Err(p) = r {
+            fail(c.rep, "panic", &wide, format!("{} at {}", p.message, p.location));
+        }
+        c.rep.count("items also decoded at a non-zero offset with trailing bytes");
     }
 }
 
@@ -341,7 +379,10 @@ pub fn replay(a: &Args, rep: &mut Report) {
         return;
     }
     let b = vcore::json::unhex(&a.replay[0]).expect("hex input");
-    let (it, _) = vcore::refcbor::parse(&b).expect("well-formed integer head");
+    let st: usize = a.replay.get(1).and_then(|s| s.parse().ok()).unwrap_or(0);
+    let en: usize = a.replay.get(2).and_then(|s| s.parse().ok()).unwrap_or(b.len());
+    WINDOW.with(|w| w.set((st, en)));
+    let (it, _) = vcore::refcbor::parse_at(&b, st).expect("well-formed integer head");
     let v = it.int_value().expect("integer item");
     println!("replaying integer head {} = {}", hex(&b), v);
     c.rep.eval();
